@@ -54,6 +54,42 @@ func (p *Program) newJob(fn *ssa.Function) *Job {
 	return &Job{Name: jobName(fn), fn: fn, contract: p.contractFor(fn), special: map[string]*Val{}, globals: map[string]*Val{}, regexUsed: map[string]*RegexInfo{}, concatParts: map[int][]*Term{}}
 }
 
+// newLemmaJob: a lemma is proved from the contracts of the functions it mentions (calls are by contract).
+func (p *Program) newLemmaJob(c *Contract) *Job {
+	name := strings.TrimPrefix(c.Pkg, modulePath+"/") + "." + c.Key
+	return &Job{Name: name, contract: c, special: map[string]*Val{}, globals: map[string]*Val{}, regexUsed: map[string]*RegexInfo{}, concatParts: map[int][]*Term{}}
+}
+
+func (p *Program) generateLemma(j *Job, x *Exec) {
+	c := j.contract
+	pf := p.anyFuncOfPkg(c.Pkg)
+	if pf == nil {
+		unsupportedf("lemma %s: package has no function to resolve names in", c.Key)
+	}
+	st := &State{pc: True, heap: map[string]*HNode{}, alloc: Sym("alloc0", SInt)}
+	j.alloc0 = st.alloc
+	x.ctx.assumeGlobal(st, Ge(st.alloc, IntLit(1000)))
+	fr := &Frame{fn: pf, env: map[ssa.Value]*Val{}, entry: st, lets: map[string]*Val{}, headerSt: map[*ssa.BasicBlock]*loopRt{}}
+	fr.loops = p.loopsOf(pf)
+	ev0 := &evaluator{x: x, fr: fr, st: st, lets: map[string]*Val{}}
+	for _, prm := range c.Params {
+		t := ev0.resolveTypeName(prm.Type)
+		v := x.inputVal(st, "p."+prm.Name, t)
+		fr.lets[prm.Name] = v
+		x.inputs = append(x.inputs, &InputSym{Name: prm.Name, Val: v})
+	}
+	c.Bound = true
+	fr.entry = st.clone()
+	for _, r := range x.evalClauses(fr, st, c.clauses("requires", 0), nil, "requires") {
+		x.ctx.assume(st, r.t)
+	}
+	x.obls = append(x.obls, &Obligation{Name: j.Name + "#pre-sat", Kind: "pre-sat", Job: j.Name, NFact: len(x.ctx.facts), PC: True, Goal: False, Note: "lemma hypotheses are satisfiable (expected: sat)"})
+	fr.results = &Val{}
+	for _, r := range x.evalClauses(fr, st, c.clauses("ensures", 0), nil, "ensures") {
+		x.oblige(st, "ensures", r.t, token.NoPos, r.cl.Src)
+	}
+}
+
 // generate runs the symbolic execution and fills in obligations.
 func (p *Program) generate(j *Job) {
 	x := &Exec{prog: p, ctx: newCtx(), job: j, counters: map[string]int{}, typed: map[[2]int]bool{}, unmod: map[string]bool{}, trusted: map[string]bool{}}
@@ -79,6 +115,10 @@ func (p *Program) generate(j *Job) {
 		}
 		sort.Strings(j.Trusted)
 	}()
+	if j.contract != nil && j.contract.Lemma {
+		p.generateLemma(j, x)
+		return
+	}
 	fn := j.fn
 	st := &State{pc: True, heap: map[string]*HNode{}, alloc: Sym("alloc0", SInt)}
 	j.alloc0 = st.alloc
